@@ -100,7 +100,7 @@ def _shrink(item):
 
 
 def main(tier="quick", seed=0, procs=None, only=None):
-    run = Run("C12", tier, seed, "exploration")
+    run = Run("C12", tier, seed, "other")
     run.under_contract(*["synapgrad.nn.modules." + f for f in (
         "Module.__setattr__", "Module.register_module", "Module.register_parameter", "Module.parameters", "Module.submodules",
         "Module.num_params", "Module.train", "Module.eval", "Module.zero_grad", "Module.freeze", "Module.unfreeze",
@@ -196,4 +196,11 @@ def main(tier="quick", seed=0, procs=None, only=None):
         run.violation(obl, "%s [minimal program: %s] [%d failing (program, root) pairs in this class]" % (c["what"], "; ".join(mt.source(prog).split("\n")[5:]), c["n"]),
                       key=key, replay={"program": [list(o) for o in prog], "python": mt.source(prog), "detail": c["det"], "observed": c["what"],
                                        "failing_cases_in_class": c["n"], "unshrunk_examples": c["other"]})
+    # ---- deductive part (vf/props/c12_vc.py): the registration step for ALL names and ALL registry contents, verification conditions from the real AST
+    from . import c12_vc
+    from ..pyvc.harness import TargetCase
+    from ..symreal.pool import run_catalogue
+    run.assume("deductive part: OrderedDict is modelled by its abstract ordered-map contract (has / val / rank arrays; d[k]=v keeps the rank of an existing key and appends a new one; "
+               "pop removes the key only), object.__setattr__ by an instance-attribute map; attribute names are integers; pyvc encoding as in C07/C15")
+    run_catalogue(run, [TargetCase(t) for t in c12_vc.targets()], seed=seed, procs=procs)
     return run.finish()
